@@ -18,6 +18,7 @@ import (
 	"github.com/paulsonkoly/chess-3/move"
 	"github.com/paulsonkoly/chess-3/params"
 	"github.com/paulsonkoly/chess-3/search"
+	"github.com/paulsonkoly/chess-3/transp"
 	"pgregory.net/rapid"
 
 	"verif/eng"
@@ -44,6 +45,18 @@ type Case struct {
 	GoArgs string   `json:"go,omitempty"`      // UCI leg: arguments of the go command
 	// Before (UCI leg): conforming position / ucinewgame lines sent on the same driver first (gen.EarlierPositions)
 	Before []string `json:"before,omitempty"`
+	// Foreign: an entry left in the engine's table under the root's own key right before the search - the state a
+	// signature collision with another position leaves behind (hook search.VerifTable)
+	Foreign *Foreign `json:"foreign,omitempty"`
+}
+
+// Foreign is a table entry: Move is any 15-bit encoding (a move of another position, or no move at all).
+type Foreign struct {
+	Move  int `json:"move"`
+	Depth int `json:"depth"`
+	Score int `json:"score"`
+	Type  int `json:"type"`
+	Gen   int `json:"gen"`
 }
 
 var ttSizes = []int{32, 64, 3200, 128 * 1024, 1 << 20}
@@ -240,6 +253,9 @@ func run1(c Case, s *search.Search, rec *evid.Rec) error {
 	ri, err := setup(c)
 	if err != nil {
 		return err
+	}
+	if f := c.Foreign; f != nil {
+		s.VerifTable().Insert(ri.b.Hash(), transp.Gen(f.Gen), chess.Depth(f.Depth), 0, move.Move(f.Move), chess.Score(f.Score), transp.Type(f.Type))
 	}
 	before := ri.b.VerifSnapshot()
 	var opts []search.Option
@@ -805,6 +821,32 @@ func TestC06(t *testing.T) {
 				t.Fatalf("%v", err)
 			}
 			rec.Class("sweep_roots")
+		})
+		rec.Rapid(t, "foreign_table_move", evid.Pick(6000, 200000), func(t *rapid.T) {
+			// C05's consequence seen at the search: a move remembered for another position under a colliding key
+			// is never played or returned unless it is a genuine move of the root
+			c := drawRoot(t, rec)
+			c.Warm, c.Stop, c.Ponder, c.SoftMs = nil, "", "", 0
+			c.TT = ttSizes[gen.Draw(t, 0, len(ttSizes)-1, "tt")]
+			c.Depth, c.Nodes, c.Soft = gen.Draw(t, 1, 4, "depth"), -1, 0
+			if gen.Chance(t, 2, 3, "abortEarly") {
+				c.Nodes = gen.Draw(t, 0, 40, "nodes") // aborted within the first iterations: the fall-back paths
+			}
+			f := &Foreign{Depth: gen.Draw(t, 0, 63, "fdepth"), Type: gen.Draw(t, 0, 2, "ftype"), Gen: gen.Draw(t, 0, 255, "fgen"), Score: gen.Draw(t, -300, 300, "fscore")}
+			if gen.Chance(t, 1, 2, "otherPositionsMove") {
+				other, _ := gen.Root(t)
+				if legal := other.Legal(); len(legal) > 0 {
+					f.Move = int(eng.Enc(legal[gen.Draw(t, 0, len(legal)-1, "fmove")]))
+				}
+			} else {
+				f.Move = gen.Draw(t, 0, 1<<15-1, "fenc")
+			}
+			c.Foreign = f
+			rec.Class("foreign_entry_under_the_root_key")
+			if err := one(c, rec); err != nil {
+				rec.Fail("foreign_table_move", err.Error(), withHistory(c))
+				t.Fatalf("%v", err)
+			}
 		})
 		if !spsa {
 			rec.Rapid(t, "uci_go", evid.Pick(6000, 60000), func(t *rapid.T) {
